@@ -220,6 +220,7 @@ type SynCase struct {
 	Test       string      `json:"test"`
 	World      SynWorld    `json:"world"`
 	BaseYear   int         `json:"base_year,omitempty"`
+	StepNS     int64       `json:"time_step_ns,omitempty"`
 	Violations []Violation `json:"violations,omitempty"`
 	Log        string      `json:"log,omitempty"`
 }
@@ -240,6 +241,9 @@ func TestC08(t *testing.T) {
 		}
 		if sc.BaseYear > 0 {
 			synBaseYear = sc.BaseYear
+		}
+		if sc.StepNS > 0 {
+			synStepNS = sc.StepNS
 		}
 		for rep := 0; rep < 8; rep++ { // map-order dependent defects show up within a few repetitions
 			if v, _ := checkWorld(s, sc.World); len(v) > 0 {
@@ -266,15 +270,22 @@ func TestC08(t *testing.T) {
 			synBaseYear = 2031 // every recorded event is "later" than anything ergo will write now
 			stats.Label("world.dated_in_the_future")
 		}
+		synStepNS = int64(time.Second)
+		if pct(rt, 30, "substep") {
+			// several creations within one second (stamps printed with and without a fraction)
+			// or within one millisecond / microsecond
+			synStepNS = oneOf(rt, []int64{250e6, 500e6, 1e5, 1e3, 100, 1}, "substep.ns")
+			stats.Label("world.creation_times_within_one_second")
+		}
 		viol, info := checkWorld(s, w)
-		usedYear := synBaseYear
-		synBaseYear = 2026
+		usedYear, usedStep := synBaseYear, synStepNS
+		synBaseYear, synStepNS = 2026, int64(time.Second)
 		if len(viol) > 0 {
 			var vs []Violation
 			for _, m := range viol {
 				vs = append(vs, Violation{"C08", m})
 			}
-			WriteReplay(replayPath, SynCase{Property: "C08", Engine: "LOGS", Test: "TestC08", World: w, BaseYear: usedYear, Violations: vs, Log: s.Render(w)})
+			WriteReplay(replayPath, SynCase{Property: "C08", Engine: "LOGS", Test: "TestC08", World: w, BaseYear: usedYear, StepNS: usedStep, Violations: vs, Log: s.Render(w)})
 			rt.Fatalf("C08 violated: %v", viol)
 		}
 		stats.Eval()
